@@ -41,6 +41,8 @@ const (
 	keyNoName      = "entry-unresolvable-by-name-after-replay"
 	// a flush round went on (data file, acknowledgement) after its index flush had failed
 	keyAfterIdxErr = "data-flushed-after-failed-index-flush"
+	// database.FlushMeta returned nil although one of its stores failed to flush
+	keyMetaErrSwallowed = "data-flushed-after-failed-meta-flush"
 )
 
 // ---------------------------------------------------------------- shadow of the dictionaries
@@ -795,7 +797,35 @@ func (r *caseRun) opFlushMetaFail(store string) {
 		return
 	}
 	if err == nil {
-		r.failHarness("flush meta", fmt.Errorf("table creation of store %s failed but FlushMeta reported success", store))
+		// the metadata flush swallowed the error: doFlush goes on with the shard index and the family data and
+		// acknowledges the log although the names of that data are not durable. Shown on the real node: the
+		// rest of the round, a crash image, restart, lookups by name of what is in the data files.
+		r.broken = true
+		r.c.Fail(keyMetaErrSwallowed, fmt.Sprintf("the table file of the metadata store %q could not be created during database.FlushMeta, but FlushMeta returned nil: "+
+			"the flush job continues with the index and the family data", store))
+		if !r.guard("flush index", r.n.flushIndex) || !r.guard("flush family", r.n.flushFamily) {
+			return
+		}
+		img, ierr := r.newRoot()
+		if ierr == nil {
+			ierr = copyTree(r.n.root, img)
+		}
+		if ierr != nil {
+			return
+		}
+		r.n.close()
+		r.n = nil
+		var n *node
+		if !r.guard("recover", func() (err error) { n, err = openNode(img, r.famTime, r.expired, r.leaders...); return err }) {
+			return
+		}
+		r.n = n
+		r.n.use(r.cur)
+		obs := r.observeDurable()
+		for _, q := range obs.unres {
+			r.c.Fail(keyMetaErrSwallowed, fmt.Sprintf("entry %d (%s host=%s): after the swallowed metadata flush error the round flushed its rows and acknowledged the log (ack %d); "+
+				"after a crash the rows are in a data file but do not resolve by metric name and tag", q, metricName(r.entries[q].Metric), tagValue(r.entries[q].Tagv), r.n.pos().ack))
+		}
 		return
 	}
 	r.sh.metric.prepare(r.sh.swapOnEmpty)
